@@ -142,6 +142,8 @@ impl Opnd {
 pub enum Cnt {
     Imm(u32),
     Cl,
+    /// a register other than CL written as the count: never valid
+    Reg(&'static str),
 }
 
 #[derive(Clone, Debug, PartialEq)]
@@ -259,6 +261,7 @@ impl Ins {
                 let c = match cnt {
                     Cnt::Imm(v) => json!({"k":"imm","v":v}),
                     Cnt::Cl => json!({"k":"cl"}),
+                    Cnt::Reg(r) => json!({"k":"reg","r":r}),
                 };
                 json!({"cls":"shift","op":op,"w":w,"dst":dst.to_json(),"cnt":c})
             }
@@ -296,6 +299,7 @@ impl Ins {
                 let cs = match cnt {
                     Cnt::Imm(v) => sp.num(*v as i32),
                     Cnt::Cl => sp.kw("cl"),
+                    Cnt::Reg(r) => sp.kw(r),
                 };
                 format!("{}{}{}{}{}", sp.kw(mn), s, dst.to_src(*w, sp), c, cs)
             }
